@@ -151,7 +151,7 @@ func main() {
 	for i := 0; i < c.N(4, 40); i++ {
 		specs = append(specs, vkit.ChildSpec{Mode: "listener", Tag: fmt.Sprintf("lsn%03d", i), Timeout: 5 * time.Minute, Args: map[string]string{"idx": strconv.Itoa(i)}})
 	}
-	for i := 0; i < c.N(9, 81); i++ { // 9 kinds of new configuration file (stageb.go variants): each at least once
+	for i := 0; i < c.N(10, 80); i++ { // 10 kinds of new configuration file (stageb.go variants): each at least once
 		specs = append(specs, vkit.ChildSpec{Mode: "e2e", Tag: fmt.Sprintf("e2e%03d", i), Timeout: 6 * time.Minute, Args: map[string]string{"idx": strconv.Itoa(i)}})
 	}
 	for _, r := range c.RunChildren(specs, 8) {
